@@ -191,6 +191,10 @@ Fixpoint listN_eqb (a b : list N) : bool :=
 Definition culprits_of (t : Z) (fs : list fault) : list N :=
   map culprit (filter (fun f => ftype f =? t) fs).
 
+(* only the three fault types of the follower routine occur *)
+Definition known_fault (f : fault) : bool :=
+  (ftype f =? FaultLeaderIdleness) || (ftype f =? FaultLeaderMistake) || (ftype f =? FaultLeaderImpersonation).
+
 Definition spec_ok (c : cfg) (h : list event) (o : obs) : bool :=
   match leader_id c with
   | None => true                      (* the leader backs no seat: outside the property *)
@@ -210,6 +214,10 @@ Definition spec_ok (c : cfg) (h : list event) (o : obs) : bool :=
               (* impersonators seen before it are blamed under their own operator *)
               && listN_eqb (sortN (culprits_of FaultLeaderImpersonation (o_faults o)))
                            (sortN (map m_op (filter (impersonates c lid) pre)))
+              (* the leader's disallowed proposals seen before it are recorded as his mistakes *)
+              && listN_eqb (culprits_of FaultLeaderMistake (o_faults o))
+                           (map (fun _ => f_leader c) (filter (mistaken c lid) pre))
+              && forallb known_fault (o_faults o)
           end
       | None =>
           (* nothing returned: an error, the leader -- and only the leader -- is recorded as
@@ -219,6 +227,9 @@ Definition spec_ok (c : cfg) (h : list event) (o : obs) : bool :=
           && negb (existsb (fun m => acceptable c lid m && negb (from_self c m)) act)
           && listN_eqb (sortN (culprits_of FaultLeaderImpersonation (o_faults o)))
                        (sortN (map m_op (filter (impersonates c lid) act)))
+          && listN_eqb (culprits_of FaultLeaderMistake (o_faults o))
+                       (map (fun _ => f_leader c) (filter (mistaken c lid) act))
+          && forallb known_fault (o_faults o)
       end
   end.
 
